@@ -65,6 +65,7 @@ type Instance struct {
 	feasCache map[string]string
 	CacheHits int
 	snap      *heapSnap
+	initPerPath bool
 	goldenIDs map[int][]int
 	oblLabels map[string]int
 	reached   map[string]int
@@ -234,6 +235,10 @@ func (inst *Instance) prepare(P *Program, solver *Solver) bool {
 			inst.EndMsgs[end.Kind+": (package init) "+end.Msg]++
 			return false
 		}
+		if len(x0.alts) > 0 || len(x0.inputs) > 0 || len(x0.pc) > 0 {
+			// package initialisation depends on the environment: it is re-executed on every path
+			inst.initPerPath = true
+		}
 		inst.snap = x0.snapshot()
 		inst.Steps += x0.steps
 	}
@@ -271,7 +276,19 @@ func (x *Exec) runPath() (end pathEnd) {
 			end = pathEnd{"enginebug", fmt.Sprint(r) + "\n" + string(debug.Stack())}
 		}
 	}()
-	x.restore(x.inst.snap)
+	if x.inst.initPerPath {
+		x.inInit = true
+		if x.P.WordPkg != nil {
+			if f := x.P.WordPkg.Func("init"); f != nil {
+				x.call(f, nil)
+			}
+		}
+		x.call(x.P.Pkg.Func("init"), nil)
+		x.inInit = false
+		x.writes = map[string]bool{}
+	} else {
+		x.restore(x.inst.snap)
+	}
 	fn := x.P.Func(x.inst.Harness)
 	if fn == nil {
 		panic(unsupported("harness function not found: " + x.inst.Harness))
